@@ -324,6 +324,19 @@ impl Stage for Lockstep {
                 }
             }
         }
+        // self-test of the harness's canonicaliser: the id-free dump must not depend on table / row order
+        {
+            let mut rd = crate::eng::raw_dump(&eg);
+            let a = canon_from_raw(&rd, &CanonOpts::default());
+            rd.tables.reverse();
+            for t in rd.tables.iter_mut() {
+                t.rows.reverse();
+            }
+            let b = canon_from_raw(&rd, &CanonOpts::default());
+            if a != b {
+                out.fail("harness-selftest:canonical-dump-depends-on-row-order", format!("canonical dump changes when rows are enumerated in reverse:\n{}", a.diff(&b)));
+            }
+        }
         out.count("commands_executed", executed);
         out.nontrivial = match self.mode {
             Mode::C01 => model.congruence_merges >= 1,
